@@ -30,11 +30,13 @@ import (
 	"go/constant"
 	"go/importer"
 	"go/parser"
+	"go/printer"
 	"go/token"
 	"go/types"
 	"math/big"
 	"os"
 	"path/filepath"
+	"reflect"
 	"sort"
 	"strings"
 )
@@ -62,6 +64,7 @@ type transUnit struct {
 	ExternFuncs map[string]externFn  // "stat.SummaryStatistics.Add" / "stat.NewSummaryStatistics" -> Lean function
 	ExternVars  map[string]string    // "encoding.BinEncodingIndexDeltas" -> Lean constant (variables of other translated packages)
 	Imports     []string
+	Desugar     *desugarSpec // a Go -> Go pre-pass on one file that removes aliasing (see the end of this file)
 }
 
 // an interface of another package: a type variable with a class of method signatures (DDS/Model/GoIface.lean);
@@ -312,6 +315,8 @@ type funcInfo struct {
 	extern  bool // an interface method or a function of another translated package
 	noFuel  bool // a function value held in a parameter: already applied to the caller's fuel
 	ord     bool // ranges over a map (directly or through a callee): takes the iteration-order oracle `ord`
+	oracle  string          // this "function" is an oracle of the desugared source: the name of the Lean parameter that stands for it
+	oracles map[string]bool // the oracles the function needs (directly or through a callee): extra parameters, in the order of tr.oracleList
 }
 
 func (f *funcInfo) allParams() []*types.Var {
@@ -345,6 +350,8 @@ type tr struct {
 	lits      map[*ast.FuncLit]*funcInfo // function literals passed as arguments, lifted to top-level definitions
 	litsOf    map[string][]string        // enclosing function -> keys of its lifted literals
 	forEachRange map[*ast.RangeStmt]string // synthetic `range` statements standing for `x.ForEach(func…{…; return false})`: the class
+	oracleList []*funcInfo // the oracles of the desugared source, in parameter order
+	desugared  string      // text of the desugared file (written next to the generated Lean file)
 }
 
 func (t *tr) fail(n ast.Node, format string, a ...interface{}) {
@@ -762,6 +769,9 @@ func (t *tr) expr(e ast.Expr, c *ectx) string {
 			obj = t.info.Defs[x]
 		}
 		if v, ok := obj.(*types.Var); ok {
+			if t.knownTrue[v] {
+				return "true" // `ok` of a type assertion that succeeds by specialisation
+			}
 			if ln, ok := t.vars[v]; ok {
 				if t.varRes[v] {
 					if c.hoists == nil || c.inSC {
@@ -779,6 +789,11 @@ func (t *tr) expr(e ast.Expr, c *ectx) string {
 			return lname(x.Name)
 		}
 		if x.Name == "nil" {
+			if tv.Type != nil {
+				if _, isSl := tv.Type.(*types.Slice); isSl {
+					return "([] : " + t.leanType(tv.Type) + ")" // a nil slice
+				}
+			}
 			return "GoErr.nil"
 		}
 		if x.Name == "true" || x.Name == "false" {
@@ -843,7 +858,7 @@ func (t *tr) expr(e ast.Expr, c *ectx) string {
 	case *ast.FuncLit:
 		fi := t.lits[x]
 		if fi == nil {
-			t.fail(e, "function literal in an unsupported position")
+			return t.lambda(x)
 		}
 		if t.unit.TypeArgs != "" {
 			return "(" + fi.lean + " " + t.unit.TypeArgs + " fuel)"
@@ -1002,6 +1017,9 @@ func (t *tr) binary(x *ast.BinaryExpr, c *ectx) string {
 			if x.Op == token.SHL {
 				return "(" + a + " * (2 : Int) ^ " + sh + ")"
 			}
+			if isInt(t.typeOf(x.Y)) {
+				return "(GoSem.shrInt " + a + " " + b + ")"
+			}
 			return "(Int.shiftRight " + a + " " + sh + ")"
 		}
 	case isBV(lt):
@@ -1045,6 +1063,8 @@ func (t *tr) binary(x *ast.BinaryExpr, c *ectx) string {
 			return "(Int.tdiv " + a + " " + b + ")"
 		case token.REM:
 			return "(Int.tmod " + a + " " + b + ")"
+		case token.AND:
+			return "(GoSem.andInt " + a + " " + b + ")"
 		case token.EQL:
 			return "(" + a + " == " + b + ")"
 		case token.NEQ:
@@ -1252,10 +1272,10 @@ func (t *tr) call(x *ast.CallExpr, c *ectx) string {
 					// a negative length panics
 					n := t.tmp()
 					*c.hoists = append(*c.hoists, hoist{name: n, kind: "opt", pat: n,
-						expr: "GoSem.mkSlice " + t.expr(x.Args[1], c) + " " + t.zero(x, st.Elem())})
+						expr: "GoSem.mkSlice " + t.expr(x.Args[1], c) + " " + t.zeroElem(x, st.Elem())})
 					return n
 				}
-				return "(List.replicate (Int.toNat " + t.expr(x.Args[1], c) + ") " + t.zero(x, st.Elem()) + ")"
+				return "(List.replicate (Int.toNat " + t.expr(x.Args[1], c) + ") " + t.zeroElem(x, st.Elem()) + ")"
 			}
 			t.fail(x, "unsupported builtin %s", id.Name)
 		}
@@ -1482,10 +1502,23 @@ func (t *tr) apply(fi *funcInfo, args []string) string {
 	if fi.ord {
 		s += " ord"
 	}
+	for _, o := range t.oracleList {
+		if fi.oracles[o.oracle] {
+			s += " " + o.oracle
+		}
+	}
 	for _, a := range args {
 		s += " " + a
 	}
 	return s
+}
+
+// the zero value of a slice element (a typed empty list for a slice of slices)
+func (t *tr) zeroElem(n ast.Node, ty types.Type) string {
+	if _, ok := ty.Underlying().(*types.Slice); ok {
+		return "([] : " + t.leanType(ty) + ")"
+	}
+	return t.zero(n, ty)
 }
 
 func (t *tr) zero(n ast.Node, ty types.Type) string {
@@ -1556,6 +1589,17 @@ func (t *tr) composite(x *ast.CompositeLit, c *ectx) string {
 	vals := map[string]string{}
 	for i, e := range x.Elts {
 		if kv, ok := e.(*ast.KeyValueExpr); ok {
+			if id, isId := kv.Value.(*ast.Ident); isId && id.Name == "nil" {
+				// `field: nil` for a slice field: the (typed) empty list
+				for j := 0; j < st.NumFields(); j++ {
+					if _, isSl := st.Field(j).Type().Underlying().(*types.Slice); isSl && st.Field(j).Name() == kv.Key.(*ast.Ident).Name {
+						vals[st.Field(j).Name()] = "([] : " + t.leanType(st.Field(j).Type()) + ")"
+					}
+				}
+				if _, done := vals[kv.Key.(*ast.Ident).Name]; done {
+					continue
+				}
+			}
 			vals[kv.Key.(*ast.Ident).Name] = t.expr(kv.Value, c)
 		} else {
 			vals[st.Field(i).Name()] = t.expr(e, c)
@@ -1733,6 +1777,10 @@ func (t *tr) callStmt(x *ast.CallExpr, lhs []ast.Expr, define bool, sc *sctx, k 
 				v := "(GoSem.sortFloat64s " + t.expr(x.Args[0], c) + ")"
 				return t.wrapHoists(*hs, t.assignTo(x.Args[0], v, c, sc, k), sc)
 			}
+			if pn, ok := t.info.Uses[id].(*types.PkgName); ok && pn.Imported().Path() == "sort" && sel.Sel.Name == "Ints" && len(lhs) == 0 {
+				v := "(GoSem.sortInts " + t.expr(x.Args[0], c) + ")"
+				return t.wrapHoists(*hs, t.assignTo(x.Args[0], v, c, sc, k), sc)
+			}
 		}
 	}
 	if id, ok := x.Fun.(*ast.Ident); ok && id.Name == "delete" && len(lhs) == 0 {
@@ -1789,7 +1837,18 @@ func (t *tr) callStmt(x *ast.CallExpr, lhs []ast.Expr, define bool, sc *sctx, k 
 		pats = append(pats, lname(n))
 	}
 	nres := fi.sig.Results().Len()
+	var convs [][2]string // (F64 temporary, exact-weight name): float results of code of another package, in "rat" mode
 	for i := 0; i < nres; i++ {
+		if i < len(lhs) && fi.extern && fi.oracle == "" && !fi.noFuel && t.rat() && isFloat(fi.sig.Results().At(i).Type()) {
+			if id, ok := lhs[i].(*ast.Ident); ok && id.Name != "_" {
+				n := t.tmp()
+				pats = append(pats, n)
+				convs = append(convs, [2]string{n, lname(id.Name)})
+				continue
+			} else if !ok {
+				t.fail(x, "float result of a function of another package assigned to a non-variable")
+			}
+		}
 		if i < len(lhs) {
 			if id, ok := lhs[i].(*ast.Ident); ok {
 				if id.Name == "_" {
@@ -1811,6 +1870,17 @@ func (t *tr) callStmt(x *ast.CallExpr, lhs []ast.Expr, define bool, sc *sctx, k 
 	}
 	for i := len(post) - 1; i >= 0; i-- {
 		k = t.assignTo(post[i].lhs, post[i].tmp, c, sc, k)
+	}
+	for i := len(convs) - 1; i >= 0; i-- {
+		// a weight read by the float64 codecs enters the exact envelope: NaN and the infinities are outside it (panic)
+		comb := "GoSem.optR"
+		if sc.monad == "loop" {
+			comb = "GoSem.optL"
+		}
+		if sc.monad == "pure" {
+			t.fail(x, "float result of a function of another package in a pure function")
+		}
+		k = comb + " (GoSem.ratOfF64 " + convs[i][0] + ") (fun " + convs[i][1] + " =>\n" + k + ")"
 	}
 	pat := strings.Join(pats, ", ")
 	if len(pats) > 1 {
@@ -1959,15 +2029,26 @@ func (t *tr) copyStmt(x *ast.CallExpr, c *ectx, hs *[]hoist, sc *sctx, k string)
 			t.fail(x, "copy inside a slice in a pure function")
 		}
 		s2, ok2 := src.(*ast.SliceExpr)
-		if !ok2 || d.High != nil || d.Low == nil || s2.Low == nil || s2.High == nil || d.Slice3 || s2.Slice3 {
+		if !ok2 {
+			s2 = &ast.SliceExpr{X: src} // copy(x[a:], x): the whole slice as the source
+		}
+		if d.High != nil || d.Low == nil || d.Slice3 || s2.Slice3 {
 			t.fail(x, "unsupported copy form")
 		}
 		base := t.expr(d.X, c)
 		if base != t.expr(s2.X, c) {
 			t.fail(x, "copy between slices of different variables")
 		}
+		dlo := t.expr(d.Low, c)
+		slo, shi := "(0 : Int)", "(GoSem.len "+base+")" // x[lo:] / x[:hi] / x as the source: the missing bounds
+		if s2.Low != nil {
+			slo = t.expr(s2.Low, c)
+		}
+		if s2.High != nil {
+			shi = t.expr(s2.High, c)
+		}
 		tn := t.tmp()
-		body := comb + " (GoSem.copyWithin " + base + " " + t.expr(d.Low, c) + " " + t.expr(s2.Low, c) + " " + t.expr(s2.High, c) + ") (fun " + tn + " =>\n" +
+		body := comb + " (GoSem.copyWithin " + base + " " + dlo + " " + slo + " " + shi + ") (fun " + tn + " =>\n" +
 			t.assignTo(d.X, tn, c, sc, k) + ")"
 		return t.wrapHoists(*hs, body, sc)
 	}
@@ -2115,7 +2196,7 @@ func (t *tr) assignedOuter(nodes []ast.Node, declaredInside func(types.Object) b
 						add(x)
 					}
 				}
-				if obj != nil && obj.Name() == "Float64s" && obj.Pkg() != nil && obj.Pkg().Path() == "sort" && len(s.Args) > 0 {
+				if obj != nil && (obj.Name() == "Float64s" || obj.Name() == "Ints") && obj.Pkg() != nil && obj.Pkg().Path() == "sort" && len(s.Args) > 0 {
 					add(s.Args[0])
 				}
 				if _, isB := obj.(*types.Builtin); isB && obj.Name() == "copy" && len(s.Args) == 2 {
@@ -2257,6 +2338,12 @@ func (t *tr) stmt(s ast.Stmt, sc *sctx, kf func() string) string {
 		var v string
 		switch x.Tok {
 		case token.DEFINE, token.ASSIGN:
+			if id, ok := x.Rhs[0].(*ast.Ident); ok && id.Name == "nil" && x.Tok == token.ASSIGN {
+				if _, isSl := t.typeOf(x.Lhs[0]).Underlying().(*types.Slice); isSl {
+					v = "([] : " + t.leanType(t.typeOf(x.Lhs[0])) + ")" // `x = nil` for a slice
+					break
+				}
+			}
 			v = t.expr(x.Rhs[0], c)
 		default:
 			ops := map[token.Token]token.Token{token.ADD_ASSIGN: token.ADD, token.SUB_ASSIGN: token.SUB, token.MUL_ASSIGN: token.MUL,
@@ -2349,12 +2436,23 @@ func (t *tr) stmt(s ast.Stmt, sc *sctx, kf func() string) string {
 				return kf() // `if !ok { … }` after a type assertion that succeeds by specialisation: dead code
 			}
 		}
-		c, hs := t.newE(sc)
-		cond := t.expr(x.Cond, c)
+		if id, ok := x.Cond.(*ast.Ident); ok && id.Name == "false" && x.Else == nil {
+			if _, isConst := t.info.Uses[id].(*types.Const); isConst {
+				return kf() // `if false { … }` (a comparison decided by the unit's specialisation): dead code
+			}
+		}
 		var elseList []ast.Stmt
 		if x.Else != nil {
 			elseList = []ast.Stmt{x.Else}
 		}
+		if sc.monad != "pure" && t.needsSplit(x.Cond) {
+			// a fallible step (index, fallible call) in the right operand of && / ||: nested ifs, so that the step is
+			// only evaluated when Go evaluates it; the continuation is duplicated
+			k := kf()
+			return t.branch(x.Cond, sc, t.stmts(x.Body.List, sc, k), t.stmts(elseList, sc, k))
+		}
+		c, hs := t.newE(sc)
+		cond := t.expr(x.Cond, c)
 		if t.isSimple(x.Body.List) && t.isSimple(elseList) {
 			// join form: let vs := if c then … else …
 			nodes := []ast.Node{x.Body}
@@ -2601,15 +2699,17 @@ func (t *tr) rangeStmt(x *ast.RangeStmt, sc *sctx, k string) string {
 		return true
 	})
 	state := t.assignedOuter([]ast.Node{x.Body}, inside)
-	if len(state) == 0 {
-		t.fail(x, "loop without state")
-	}
 	isState := map[*types.Var]bool{}
 	var stNames, stTypes []string
 	for _, v := range state {
 		isState[v] = true
 		stNames = append(stNames, lname(v.Name()))
 		stTypes = append(stTypes, t.leanType(v.Type()))
+	}
+	noState := len(state) == 0
+	if noState {
+		// a loop that only reads (and may return): a unit state
+		stNames, stTypes = []string{"«u»"}, []string{"Unit"}
 	}
 	// the body is translated first with a placeholder for the recursive call, so that we know whether it
 	// needs `fuel` / `ord` (calls to fallible or map-ranging functions), which then become parameters
@@ -2641,6 +2741,12 @@ func (t *tr) rangeStmt(x *ast.RangeStmt, sc *sctx, k string) string {
 	if strings.Contains(body, " ord") {
 		rec += " ord"
 		sig.WriteString(" (ord : GoSem.MapOrder)")
+	}
+	for _, o := range t.oracleList {
+		if mentionsName(body, o.oracle) {
+			rec += " " + o.oracle
+			sig.WriteString(" (" + o.oracle + " : " + t.oracleType(o) + ")")
+		}
 	}
 	for _, v := range free {
 		if !isState[v] {
@@ -2685,6 +2791,9 @@ func (t *tr) rangeStmt(x *ast.RangeStmt, sc *sctx, k string) string {
 	call := rec + " " + xs + " " + strings.Join(stNames, " ")
 	if keyName != "" && !isMap {
 		call = rec + " " + xs + " (0 : Int) " + strings.Join(stNames, " ")
+	}
+	if noState {
+		return t.wrapHoists(*hs, "let «u» : Unit := ()\n"+comb+" ("+call+") (fun "+stTuple+" =>\n"+k+")", sc)
 	}
 	return t.wrapHoists(*hs, comb+" ("+call+") (fun "+stTuple+" =>\n"+k+")", sc)
 }
@@ -2772,12 +2881,14 @@ func (t *tr) forStmt(x *ast.ForStmt, sc *sctx, k string) string {
 		stNames = append(stNames, lname(v.Name()))
 		stTypes = append(stTypes, t.leanType(v.Type()))
 	}
-	if len(state) == 0 {
-		t.fail(x, "loop without state")
+	noState := len(state) == 0
+	if noState {
+		stNames, stTypes = []string{"«u»"}, []string{"Unit"}
 	}
 	stTuple := tuple(stNames)
 	stType := strings.Join(stTypes, " × ")
-	rec := name
+	recHole := fmt.Sprintf("«REC%d»", t.nLoop) // the loop function applied to its oracles, known once the body is translated
+	rec := recHole
 	if t.unit.TypeArgs != "" {
 		rec += " " + t.unit.TypeArgs
 	}
@@ -2793,11 +2904,23 @@ func (t *tr) forStmt(x *ast.ForStmt, sc *sctx, k string) string {
 	}
 	inner.cont = post
 	body := t.stmts(x.Body.List, inner, post)
-	if x.Cond != nil {
+	if x.Cond != nil && t.needsSplit(x.Cond) {
+		body = t.branch(x.Cond, inner, body, ".done "+stTuple)
+	} else if x.Cond != nil {
 		c, hs := t.newE(inner)
 		cond := t.expr(x.Cond, c)
 		body = t.wrapHoists(*hs, "if "+cond+" then\n"+body+"\nelse .done "+stTuple, inner)
 	}
+	recName := name
+	var oracleSig string
+	for _, o := range t.oracleList {
+		if mentionsName(body, o.oracle) {
+			recName += " " + o.oracle
+			oracleSig += " (" + o.oracle + " : " + t.oracleType(o) + ")"
+		}
+	}
+	body = strings.ReplaceAll(body, recHole, recName)
+	recCall = strings.ReplaceAll(recCall, recHole, recName)
 	var sig strings.Builder
 	sig.WriteString("def " + name)
 	if t.unit.Mode == "mops" {
@@ -2809,6 +2932,7 @@ func (t *tr) forStmt(x *ast.ForStmt, sc *sctx, k string) string {
 	if strings.Contains(body, " ord") {
 		t.fail(x, "a for loop whose body ranges over a map (the order oracle is not threaded through for loops)")
 	}
+	sig.WriteString(oracleSig)
 	for _, v := range ro {
 		sig.WriteString(" (" + lname(v.Name()) + " : " + t.leanType(v.Type()) + ")")
 	}
@@ -2817,7 +2941,7 @@ func (t *tr) forStmt(x *ast.ForStmt, sc *sctx, k string) string {
 		sig.WriteString(" → " + ty)
 	}
 	sig.WriteString(" → Loop (" + stType + ") (" + t.retType() + ")\n")
-	unders := strings.Repeat(", _", len(state))
+	unders := strings.Repeat(", _", len(stNames))
 	sig.WriteString("  | 0" + unders + " => .nofuel\n")
 	sig.WriteString("  | fuel + 1, " + strings.Join(stNames, ", ") + " =>\n")
 	sig.WriteString(indent(body, "    ") + "\n\n")
@@ -2838,6 +2962,9 @@ func (t *tr) forStmt(x *ast.ForStmt, sc *sctx, k string) string {
 			comb = "Loop.elimL"
 		}
 		res = comb + " (" + recCall + ") (fun " + stTuple + " =>\n" + k + ")"
+	}
+	if noState {
+		res = "let «u» : Unit := ()\n" + res
 	}
 	return res
 }
@@ -2938,7 +3065,7 @@ func (t *tr) analyseMutation() {
 							mark(se.X)
 						}
 					}
-					if obj != nil && obj.Name() == "Float64s" && obj.Pkg() != nil && obj.Pkg().Path() == "sort" && len(s.Args) > 0 {
+					if obj != nil && (obj.Name() == "Float64s" || obj.Name() == "Ints") && obj.Pkg() != nil && obj.Pkg().Path() == "sort" && len(s.Args) > 0 {
 						mark(s.Args[0])
 					}
 					if _, isB := obj.(*types.Builtin); isB && obj.Name() == "copy" && len(s.Args) == 2 {
@@ -3178,6 +3305,11 @@ func (t *tr) emitFunc(fi *funcInfo) {
 	if fi.ord {
 		sig.WriteString(" (ord : GoSem.MapOrder)")
 	}
+	for _, o := range t.oracleList {
+		if fi.oracles[o.oracle] {
+			sig.WriteString(" (" + o.oracle + " : " + t.oracleType(o) + ")")
+		}
+	}
 	for _, p := range fi.allParams() {
 		sig.WriteString(" (" + lname(p.Name()) + " : " + t.paramType(fi, p) + ")")
 	}
@@ -3238,7 +3370,11 @@ func (t *tr) load(repo string) {
 		}
 		sort.Strings(names)
 		for _, n := range names {
-			t.files = append(t.files, p.Files[n])
+			f := p.Files[n]
+			if t.unit.Desugar != nil && filepath.Base(n) == t.unit.Desugar.File {
+				f = t.desugarFile(f, n)
+			}
+			t.files = append(t.files, f)
 		}
 	}
 	t.info = &types.Info{Types: map[ast.Expr]types.TypeAndValue{}, Defs: map[*ast.Ident]types.Object{},
@@ -3383,6 +3519,7 @@ func translateUnit(repo string, u transUnit) (text string, errMsg string) {
 		t.vars[p.obj] = lname(name)
 	}
 	t.registerExterns()
+	t.registerOracles()
 	t.analyseMutation()
 	for _, lfi := range t.lits {
 		// a literal has the calling convention of its function type: every pointer parameter is returned
@@ -3395,6 +3532,7 @@ func translateUnit(repo string, u transUnit) (text string, errMsg string) {
 		}
 	}
 	t.analyseOrd()
+	t.analyseOracles()
 	// fallibility: a variable initialised by a call to a fallible function is fallible; iterate
 	for i := 0; i < 4; i++ {
 		t.analyseRes()
@@ -3517,6 +3655,13 @@ func genTrans(repo, outDir string) int {
 	bad := 0
 	for _, u := range transUnits {
 		text, errMsg := translateUnit(repo, u)
+		if u.Desugar != nil && lastDesugared != "" {
+			dp := filepath.Join(outDir, u.Desugar.File[:len(u.Desugar.File)-len(".go")]+".desugared.go.txt")
+			if old, _ := os.ReadFile(dp); string(old) != lastDesugared {
+				os.WriteFile(dp, []byte(lastDesugared), 0o644)
+			}
+			lastDesugared = ""
+		}
 		if errMsg != "" {
 			bad++
 			fmt.Fprintf(os.Stderr, "trans: %s: %s\n", u.File, errMsg)
@@ -3535,4 +3680,1116 @@ func genTrans(repo, outDir string) int {
 		return 4
 	}
 	return 0
+}
+
+// ---------------------------------------------------------------- short-circuit conditions with fallible operands
+
+// would the expression need a hoisted (fallible) step: an index, a slice bound, a fallible call?
+func (t *tr) needsHoist(e ast.Expr) bool {
+	saved := t.nTmp
+	defer func() { t.nTmp = saved }()
+	hs := []hoist{}
+	ok := true
+	func() {
+		defer func() {
+			if r := recover(); r != nil {
+				if _, is := r.(trErr); !is {
+					panic(r)
+				}
+				ok = false
+			}
+		}()
+		t.expr(e, &ectx{hoists: &hs})
+	}()
+	return ok && len(hs) > 0
+}
+
+func unparen(e ast.Expr) ast.Expr {
+	for {
+		p, ok := e.(*ast.ParenExpr)
+		if !ok {
+			return e
+		}
+		e = p.X
+	}
+}
+
+// a condition `A && B` / `A || B` whose right operand contains a fallible step
+func (t *tr) needsSplit(e ast.Expr) bool {
+	be, ok := unparen(e).(*ast.BinaryExpr)
+	if !ok || (be.Op != token.LAND && be.Op != token.LOR) {
+		return false
+	}
+	return t.needsHoist(be.Y) || t.needsSplit(be.X) || t.needsSplit(be.Y)
+}
+
+// `if cond then th else el` with Go's evaluation order for && and ||: the right operand (and its index checks) is
+// evaluated only when the left one does not decide
+func (t *tr) branch(cond ast.Expr, sc *sctx, th, el string) string {
+	cond = unparen(cond)
+	if be, ok := cond.(*ast.BinaryExpr); ok && t.needsSplit(cond) {
+		if be.Op == token.LAND {
+			return t.branch(be.X, sc, t.branch(be.Y, sc, th, el), el)
+		}
+		return t.branch(be.X, sc, th, t.branch(be.Y, sc, th, el))
+	}
+	c, hs := t.newE(sc)
+	cs := t.expr(cond, c)
+	return t.wrapHoists(*hs, "if "+cs+" then\n"+th+"\nelse\n"+el, sc)
+}
+
+// ---------------------------------------------------------------- closures that only read
+
+// `func(a T) R { return e }` passed as an argument, where e only READS variables of the enclosing function: a Lean
+// lambda with the calling convention of function values (fallible).  The captured variables must not be assigned
+// after the literal (Go captures the variable, Lean the value) and the literal must not stand in a loop.
+func (t *tr) lambda(x *ast.FuncLit) string {
+	if len(x.Body.List) != 1 {
+		t.fail(x, "function literal that captures variables (only `func(…) T { return e }` is translated)")
+	}
+	ret, ok := x.Body.List[0].(*ast.ReturnStmt)
+	if !ok || len(ret.Results) != 1 {
+		t.fail(x, "function literal that captures variables (only `func(…) T { return e }` is translated)")
+	}
+	captured := map[*types.Var]bool{}
+	ast.Inspect(ret, func(q ast.Node) bool {
+		if id, ok := q.(*ast.Ident); ok {
+			if v, ok := t.info.Uses[id].(*types.Var); ok && !v.IsField() && v.Pkg() == t.pkg &&
+				v.Parent() != t.pkg.Scope() && !(v.Pos() >= x.Pos() && v.Pos() < x.End()) {
+				captured[v] = true
+			}
+		}
+		return true
+	})
+	if t.cur != nil && t.cur.decl != nil {
+		ast.Inspect(t.cur.decl.Body, func(q ast.Node) bool {
+			switch s := q.(type) {
+			case *ast.ForStmt, *ast.RangeStmt:
+				if q.Pos() <= x.Pos() && x.End() <= q.End() {
+					t.fail(x, "capturing function literal inside a loop")
+				}
+			case *ast.AssignStmt, *ast.IncDecStmt, *ast.CallExpr:
+				if s.Pos() > x.End() {
+					for _, v := range t.assignedOuter([]ast.Node{s}, func(types.Object) bool { return false }) {
+						if captured[v] {
+							t.fail(s, "variable %s is assigned after a function literal captured it", v.Name())
+						}
+					}
+				}
+			}
+			return true
+		})
+	}
+	var names []string
+	for _, f := range x.Type.Params.List {
+		if _, isP := t.typeOf(f.Type).(*types.Pointer); isP {
+			t.fail(x, "capturing function literal with a pointer parameter")
+		}
+		for _, n := range f.Names {
+			names = append(names, lname(n.Name))
+		}
+	}
+	if len(names) == 0 {
+		t.fail(x, "capturing function literal without parameters")
+	}
+	return "(fun " + strings.Join(names, " ") + " => .ok " + t.expr(ret.Results[0], &ectx{}) + ")"
+}
+
+// ---------------------------------------------------------------- oracles of a desugared source
+
+// An oracle is a body-less function that the desugaring pre-pass declares (hidden state of the Go runtime such as the
+// growth of `append`, or code outside the subset that the unit leaves to the proof side).  Every translated function
+// that calls one, directly or through a callee, takes it as a parameter — threaded exactly like the map order `ord`.
+type oracleSpec struct {
+	Go   string // name of the declared function
+	Lean string // name of the Lean parameter
+	Decl string // the Go declaration added to the desugared file
+	Res  bool   // fallible (returns Res)
+	Mut  []int  // parameters it writes through (returned first)
+}
+
+func mentionsName(body, name string) bool {
+	for i := 0; i+len(name) <= len(body); {
+		j := strings.Index(body[i:], name)
+		if j < 0 {
+			return false
+		}
+		j += i
+		before, after := byte(' '), byte(' ')
+		if j > 0 {
+			before = body[j-1]
+		}
+		if j+len(name) < len(body) {
+			after = body[j+len(name)]
+		}
+		if (before == ' ' || before == '(' || before == '\n') && (after == ' ' || after == ')' || after == '\n') {
+			return true
+		}
+		i = j + len(name)
+	}
+	return false
+}
+
+func (t *tr) oracleType(o *funcInfo) string {
+	var ps, rs []string
+	for i := 0; i < o.sig.Params().Len(); i++ {
+		ps = append(ps, t.leanType(o.sig.Params().At(i).Type()))
+	}
+	for _, mi := range o.mutated {
+		rs = append(rs, t.leanType(o.sig.Params().At(mi).Type()))
+	}
+	for i := 0; i < o.sig.Results().Len(); i++ {
+		rs = append(rs, t.leanType(o.sig.Results().At(i).Type()))
+	}
+	r := "Unit"
+	if len(rs) > 0 {
+		r = strings.Join(rs, " × ")
+	}
+	if o.res {
+		r = "Res (" + r + ")"
+	}
+	return strings.Join(append(ps, r), " → ")
+}
+
+func (t *tr) registerOracles() {
+	if t.unit.Desugar == nil {
+		return
+	}
+	for _, os := range t.unit.Desugar.Oracles {
+		fo, ok := t.pkg.Scope().Lookup(os.Go).(*types.Func)
+		if !ok {
+			panic(trErr{"oracle " + os.Go + " is not declared by the desugared source"})
+		}
+		sig := fo.Type().(*types.Signature)
+		fi := &funcInfo{key: os.Go, lean: os.Lean, sig: sig, mutSet: map[*types.Var]bool{}, extern: true, res: os.Res,
+			noFuel: true, oracle: os.Lean}
+		for _, i := range os.Mut {
+			fi.mutSet[sig.Params().At(i)] = true
+			fi.mutated = append(fi.mutated, i)
+		}
+		t.byObj[fo] = fi
+		t.oracleList = append(t.oracleList, fi)
+	}
+}
+
+// which functions need which oracles (directly or through a callee)?
+func (t *tr) analyseOracles() {
+	if len(t.oracleList) == 0 {
+		return
+	}
+	changed := true
+	for changed {
+		changed = false
+		for _, fi := range t.funcs {
+			ast.Inspect(fi.decl.Body, func(m ast.Node) bool {
+				e, ok := m.(*ast.CallExpr)
+				if !ok {
+					return true
+				}
+				var obj types.Object
+				switch f := e.Fun.(type) {
+				case *ast.Ident:
+					obj = t.info.Uses[f]
+				case *ast.SelectorExpr:
+					obj = t.info.Uses[f.Sel]
+				}
+				callee := t.byObj[obj]
+				if callee == nil {
+					return true
+				}
+				need := map[string]bool{}
+				if callee.oracle != "" {
+					need[callee.oracle] = true
+				}
+				for o := range callee.oracles {
+					need[o] = true
+				}
+				for o := range need {
+					if !fi.oracles[o] {
+						if fi.oracles == nil {
+							fi.oracles = map[string]bool{}
+						}
+						fi.oracles[o] = true
+						changed = true
+					}
+				}
+				return true
+			})
+		}
+	}
+}
+
+// ---------------------------------------------------------------- Go -> Go desugaring (aliasing, cap)
+
+// The value-semantics translation above is only right for alias-free Go.  The buffered-paginated store hands out
+// slices that alias its page table and asks the runtime for `cap(buffer)`.  This pre-pass rewrites ONE file of the
+// package, before type-checking, into Go that has the same behaviour and no such aliasing; the result is printed,
+// re-parsed (fresh positions) and type-checked in place of the original, and written next to the generated Lean
+// file for inspection.  The rules R1-R4 only add redundant write-backs / a shadow field (identities on real Go); the
+// entries of Replace are the unit's specialisation assumptions and oracle cuts, stated in the unit.
+//
+//	R1  p := &T[e] … *p …          =>  p := T[e] … p … ; `*p = v` => `p = v; T[e] = p`
+//	    (rest of the block: no calls but builtins, no assignment to the operands of e or to T)
+//	R2  x := s.page(A, B)           =>  xPIdx := A; x := s.page(xPIdx, B); xSlot := xPIdx - s.minPageIndex
+//	    x := s.pages[E]             =>  xSlot := E; x := s.pages[xSlot]
+//	    s.page(A, B)[L] op= v       =>  { pg0 := s.page(A, B); pg0[L] op= v }   (then as above)
+//	    every `x[i] = v`, `x[i] op= v`, `x[i]++` is followed by `s.pages[xSlot] = x`; nothing is added when x is
+//	    never written.  Rest of the block: no assignment to s.pages / s.minPageIndex, no call of a method of s that
+//	    writes to s, x not reassigned.
+//	R3  for _, p := range s.pages { … p[i] op= v … }  =>  for pIdx, p := range s.pages { … p[i] op= v; s.pages[pIdx] = p … }
+//	R4  the capacity of s.buffer is the shadow field s.bufferCap: literal `buffer: make([]int, 0, n)` => `bufferCap: n`,
+//	    `buffer: make([]int, n)` / a local made so and only copied into => cap = len; `s.buffer = append(s.buffer, v)`
+//	    is preceded by `if len(s.buffer) == s.bufferCap { s.bufferCap = growCap(s.bufferCap, len(s.buffer)+1) }`;
+//	    `s.buffer = s.buffer[:n]` keeps it; `cap(s.buffer)` => `s.bufferCap`; any other assignment to s.buffer is an error.
+type desugarSpec struct {
+	File, Recv              string
+	Table, Base, PageMethod string // s.pages, s.minPageIndex, s.page
+	CapOf, CapField         string // s.buffer, s.bufferCap
+	GrowOracle              string
+	Oracles                 []oracleSpec
+	Replace                 map[string][][2]string // function key -> (expression or statement text, replacement)
+}
+
+var lastDesugared string
+
+type desugarer struct {
+	spec     *desugarSpec
+	mutating map[string]bool
+	recv     string // receiver name of the current function
+	fn       string
+}
+
+func nodeString(n ast.Node) string {
+	var b strings.Builder
+	printer.Fprint(&b, token.NewFileSet(), n)
+	return b.String()
+}
+
+func (d *desugarer) fail(format string, a ...interface{}) {
+	panic(trErr{"desugar " + d.fn + ": " + fmt.Sprintf(format, a...)})
+}
+
+// positions of a parsed snippet mean nothing in the file's position table (the printer would break lines by them)
+func clearPos(n ast.Node) {
+	ast.Inspect(n, func(m ast.Node) bool {
+		if m == nil {
+			return true
+		}
+		v := reflect.ValueOf(m)
+		if v.Kind() == reflect.Ptr && !v.IsNil() && v.Elem().Kind() == reflect.Struct {
+			e := v.Elem()
+			for i := 0; i < e.NumField(); i++ {
+				if f := e.Field(i); f.Type() == reflect.TypeOf(token.NoPos) && f.CanSet() {
+					f.SetInt(0)
+				}
+			}
+		}
+		return true
+	})
+}
+
+func (d *desugarer) parseExpr(s string) ast.Expr {
+	e, err := parser.ParseExpr(s)
+	if err != nil {
+		d.fail("internal: cannot parse %q", s)
+	}
+	clearPos(e)
+	return e
+}
+
+func (d *desugarer) parseStmts(s string) []ast.Stmt {
+	f, err := parser.ParseFile(token.NewFileSet(), "", "package p\nfunc _() {\n"+s+"\n}", 0)
+	if err != nil {
+		d.fail("internal: cannot parse %q", s)
+	}
+	body := f.Decls[0].(*ast.FuncDecl).Body
+	clearPos(body)
+	return body.List
+}
+
+func mapLists(n ast.Node, f func([]ast.Stmt) []ast.Stmt) {
+	ast.Inspect(n, func(m ast.Node) bool {
+		switch b := m.(type) {
+		case *ast.BlockStmt:
+			b.List = f(b.List)
+		case *ast.CaseClause:
+			b.Body = f(b.Body)
+		}
+		return true
+	})
+}
+
+func rwExprs(es []ast.Expr, f func(ast.Expr) ast.Expr) {
+	for i := range es {
+		es[i] = rwExpr(es[i], f)
+	}
+}
+
+// bottom-up rewriting of the expressions of a statement / expression tree
+func rwExpr(e ast.Expr, f func(ast.Expr) ast.Expr) ast.Expr {
+	if e == nil {
+		return nil
+	}
+	switch x := e.(type) {
+	case *ast.ParenExpr:
+		x.X = rwExpr(x.X, f)
+	case *ast.SelectorExpr:
+		x.X = rwExpr(x.X, f)
+	case *ast.IndexExpr:
+		x.X = rwExpr(x.X, f)
+		x.Index = rwExpr(x.Index, f)
+	case *ast.SliceExpr:
+		x.X, x.Low, x.High, x.Max = rwExpr(x.X, f), rwExpr(x.Low, f), rwExpr(x.High, f), rwExpr(x.Max, f)
+	case *ast.StarExpr:
+		x.X = rwExpr(x.X, f)
+	case *ast.UnaryExpr:
+		x.X = rwExpr(x.X, f)
+	case *ast.BinaryExpr:
+		x.X, x.Y = rwExpr(x.X, f), rwExpr(x.Y, f)
+	case *ast.CallExpr:
+		x.Fun = rwExpr(x.Fun, f)
+		rwExprs(x.Args, f)
+	case *ast.KeyValueExpr:
+		x.Value = rwExpr(x.Value, f)
+	case *ast.CompositeLit:
+		rwExprs(x.Elts, f)
+	case *ast.TypeAssertExpr:
+		x.X = rwExpr(x.X, f)
+	case *ast.FuncLit:
+		rwStmt(x.Body, f)
+	}
+	return f(e)
+}
+
+func rwStmt(s ast.Stmt, f func(ast.Expr) ast.Expr) {
+	switch x := s.(type) {
+	case nil:
+	case *ast.BlockStmt:
+		if x != nil {
+			for _, st := range x.List {
+				rwStmt(st, f)
+			}
+		}
+	case *ast.ExprStmt:
+		x.X = rwExpr(x.X, f)
+	case *ast.AssignStmt:
+		rwExprs(x.Lhs, f)
+		rwExprs(x.Rhs, f)
+	case *ast.IncDecStmt:
+		x.X = rwExpr(x.X, f)
+	case *ast.ReturnStmt:
+		rwExprs(x.Results, f)
+	case *ast.IfStmt:
+		rwStmt(x.Init, f)
+		x.Cond = rwExpr(x.Cond, f)
+		rwStmt(x.Body, f)
+		rwStmt(x.Else, f)
+	case *ast.ForStmt:
+		rwStmt(x.Init, f)
+		x.Cond = rwExpr(x.Cond, f)
+		rwStmt(x.Post, f)
+		rwStmt(x.Body, f)
+	case *ast.RangeStmt:
+		x.X = rwExpr(x.X, f)
+		rwStmt(x.Body, f)
+	case *ast.SwitchStmt:
+		rwStmt(x.Init, f)
+		x.Tag = rwExpr(x.Tag, f)
+		rwStmt(x.Body, f)
+	case *ast.CaseClause:
+		rwExprs(x.List, f)
+		for _, st := range x.Body {
+			rwStmt(st, f)
+		}
+	case *ast.DeclStmt:
+		if gd, ok := x.Decl.(*ast.GenDecl); ok {
+			for _, sp := range gd.Specs {
+				if vs, ok := sp.(*ast.ValueSpec); ok {
+					rwExprs(vs.Values, f)
+				}
+			}
+		}
+	case *ast.BranchStmt, *ast.EmptyStmt:
+	default:
+		panic(trErr{fmt.Sprintf("desugar: statement %T is outside the subset", s)})
+	}
+}
+
+func isIdent(e ast.Expr, name string) bool {
+	id, ok := e.(*ast.Ident)
+	return ok && id.Name == name
+}
+
+// does the statement write an element through the slice variable x?
+func writesThrough(st ast.Stmt, x string) bool {
+	elem := func(e ast.Expr) bool {
+		ix, ok := e.(*ast.IndexExpr)
+		return ok && isIdent(ix.X, x)
+	}
+	switch s := st.(type) {
+	case *ast.AssignStmt:
+		for _, l := range s.Lhs {
+			if elem(l) {
+				return true
+			}
+		}
+	case *ast.IncDecStmt:
+		return elem(s.X)
+	}
+	return false
+}
+
+func anyWrite(list []ast.Stmt, x string) bool {
+	found := false
+	for _, st := range list {
+		ast.Inspect(st, func(m ast.Node) bool {
+			if s, ok := m.(ast.Stmt); ok && writesThrough(s, x) {
+				found = true
+			}
+			return !found
+		})
+	}
+	return found
+}
+
+func (d *desugarer) insertWriteBacks(list []ast.Stmt, x, wb string) []ast.Stmt {
+	fix := func(l []ast.Stmt) []ast.Stmt {
+		var out []ast.Stmt
+		for _, st := range l {
+			out = append(out, st)
+			if writesThrough(st, x) {
+				out = append(out, d.parseStmts(wb)...)
+			}
+		}
+		return out
+	}
+	wrap := &ast.BlockStmt{List: list}
+	mapLists(wrap, fix)
+	ast.Inspect(wrap, func(m ast.Node) bool {
+		if fs, ok := m.(*ast.ForStmt); ok && fs.Post != nil && writesThrough(fs.Post, x) {
+			d.fail("write through %s in the post statement of a for loop", x)
+		}
+		return true
+	})
+	return wrap.List
+}
+
+// the page table must not change, other than through x, while x (a slice aliasing one of its entries) is written
+func (d *desugarer) checkTableStable(list []ast.Stmt, x string) {
+	table, base := d.recv+"."+d.spec.Table, d.recv+"."+d.spec.Base
+	lhs := func(e ast.Expr) {
+		s := nodeString(e)
+		if strings.HasPrefix(s, table) || s == base {
+			d.fail("%s is assigned while the slice %s aliases the page table", s, x)
+		}
+		if isIdent(e, x) {
+			d.fail("the slice %s that aliases the page table is reassigned", x)
+		}
+	}
+	for _, st := range list {
+		ast.Inspect(st, func(m ast.Node) bool {
+			switch s := m.(type) {
+			case *ast.AssignStmt:
+				if s.Tok != token.DEFINE {
+					for _, l := range s.Lhs {
+						lhs(l)
+					}
+				}
+			case *ast.IncDecStmt:
+				lhs(s.X)
+			case *ast.UnaryExpr:
+				if s.Op == token.AND && strings.HasPrefix(nodeString(s.X), d.recv+".") {
+					d.fail("address of %s taken while the slice %s aliases the page table", nodeString(s.X), x)
+				}
+			case *ast.CallExpr:
+				if sel, ok := s.Fun.(*ast.SelectorExpr); ok && isIdent(sel.X, d.recv) && d.mutating[sel.Sel.Name] {
+					d.fail("call of %s.%s (writes to the store) while the slice %s aliases the page table", d.recv, sel.Sel.Name, x)
+				}
+				if id, ok := s.Fun.(*ast.Ident); ok {
+					for _, o := range d.spec.Oracles {
+						if o.Go == id.Name && len(o.Mut) > 0 {
+							d.fail("oracle call %s while the slice %s aliases the page table", id.Name, x)
+						}
+					}
+				}
+			}
+			return true
+		})
+	}
+}
+
+// methods of the receiver type that write to the store (syntactic fixpoint; conservative)
+func (d *desugarer) mutatingMethods(f *ast.File) map[string]bool {
+	mut := map[string]bool{}
+	type meth struct {
+		name, recv string
+		body       *ast.BlockStmt
+	}
+	var ms []meth
+	for _, decl := range f.Decls {
+		fd, ok := decl.(*ast.FuncDecl)
+		if !ok || fd.Body == nil || fd.Recv == nil || !strings.HasPrefix(funcKey(fd), d.spec.Recv+".") || len(fd.Recv.List[0].Names) == 0 {
+			continue
+		}
+		ms = append(ms, meth{fd.Name.Name, fd.Recv.List[0].Names[0].Name, fd.Body})
+	}
+	changed := true
+	for changed {
+		changed = false
+		for _, m := range ms {
+			if mut[m.name] {
+				continue
+			}
+			w := false
+			viaRecv := func(e ast.Expr) bool {
+				if _, plain := e.(*ast.Ident); plain {
+					return false
+				}
+				id := baseIdent(e)
+				if id == nil {
+					if se, ok := e.(*ast.SliceExpr); ok {
+						id = baseIdent(se.X)
+					}
+				}
+				return id != nil && id.Name == m.recv
+			}
+			ast.Inspect(m.body, func(n ast.Node) bool {
+				switch s := n.(type) {
+				case *ast.AssignStmt:
+					for _, l := range s.Lhs {
+						if viaRecv(l) {
+							w = true
+						}
+					}
+				case *ast.IncDecStmt:
+					if viaRecv(s.X) {
+						w = true
+					}
+				case *ast.UnaryExpr:
+					if s.Op == token.AND && viaRecv(s.X) {
+						w = true
+					}
+				case *ast.CallExpr:
+					if sel, ok := s.Fun.(*ast.SelectorExpr); ok {
+						if isIdent(sel.X, m.recv) && mut[sel.Sel.Name] {
+							w = true
+						}
+						if isIdent(sel.X, "sort") && len(s.Args) > 0 && viaRecv(s.Args[0]) {
+							w = true
+						}
+					}
+					if isIdent(s.Fun, "copy") && len(s.Args) > 0 && viaRecv(s.Args[0]) {
+						w = true
+					}
+				}
+				return !w
+			})
+			if w {
+				mut[m.name] = true
+				changed = true
+			}
+		}
+	}
+	return mut
+}
+
+func (t *tr) desugarFile(f *ast.File, filename string) *ast.File {
+	spec := t.unit.Desugar
+	d := &desugarer{spec: spec}
+	d.mutating = d.mutatingMethods(f)
+	want := map[string]bool{}
+	for _, k := range t.unit.Funcs {
+		want[k] = true
+	}
+	f.Comments, f.Doc = nil, nil
+	ast.Inspect(f, func(m ast.Node) bool {
+		switch x := m.(type) {
+		case *ast.GenDecl:
+			x.Doc = nil
+		case *ast.FuncDecl:
+			x.Doc = nil
+		case *ast.Field:
+			x.Doc, x.Comment = nil, nil
+		case *ast.ValueSpec:
+			x.Doc, x.Comment = nil, nil
+		case *ast.TypeSpec:
+			x.Doc, x.Comment = nil, nil
+		}
+		return true
+	})
+	for _, decl := range f.Decls {
+		switch x := decl.(type) {
+		case *ast.GenDecl:
+			for _, sp := range x.Specs {
+				ts, ok := sp.(*ast.TypeSpec)
+				if !ok || ts.Name.Name != spec.Recv {
+					continue
+				}
+				st, ok := ts.Type.(*ast.StructType)
+				if !ok {
+					panic(trErr{"desugar: " + spec.Recv + " is not a struct"})
+				}
+				var fields []*ast.Field
+				done := false
+				for _, fl := range st.Fields.List {
+					fields = append(fields, fl)
+					for _, n := range fl.Names {
+						if n.Name == spec.CapOf {
+							fields = append(fields, &ast.Field{Names: []*ast.Ident{ast.NewIdent(spec.CapField)}, Type: ast.NewIdent("int")})
+							done = true
+						}
+					}
+				}
+				if !done {
+					panic(trErr{"desugar: field " + spec.CapOf + " not found"})
+				}
+				st.Fields.List = fields
+			}
+		case *ast.FuncDecl:
+			if x.Body != nil && want[funcKey(x)] {
+				d.function(x)
+			}
+		}
+	}
+	var b strings.Builder
+	b.WriteString("// GENERATED by `hx trans` from " + t.unit.Dir + "/" + spec.File + " — the alias-free Go that CodePaginated.lean is translated from.\n")
+	b.WriteString("// Rules R1-R4 (harness/trans.go, \"Go -> Go desugaring\") only add redundant write-backs and the shadow field\n")
+	b.WriteString("// " + spec.CapField + "; the body-less functions at the end are oracles (parameters of the generated Lean functions).\n")
+	b.WriteString("// Only the functions of the unit are rewritten; the others are as in the source (and are not translated).\n\n")
+	if err := printer.Fprint(&b, t.fset, f); err != nil {
+		panic(trErr{"desugar: cannot print: " + err.Error()})
+	}
+	b.WriteString("\n")
+	for _, o := range spec.Oracles {
+		b.WriteString("\n" + o.Decl + "\n")
+	}
+	text := b.String()
+	lastDesugared = text
+	nf, err := parser.ParseFile(t.fset, strings.TrimSuffix(filename, ".go")+".desugared.go", text, 0)
+	if err != nil {
+		panic(trErr{"desugar: the rewritten file does not parse: " + err.Error()})
+	}
+	return nf
+}
+
+func (d *desugarer) function(fd *ast.FuncDecl) {
+	d.fn = funcKey(fd)
+	d.recv = ""
+	if fd.Recv != nil && len(fd.Recv.List) == 1 && len(fd.Recv.List[0].Names) == 1 {
+		d.recv = fd.Recv.List[0].Names[0].Name
+	}
+	// the unit's cuts: expressions / expression statements replaced by their text
+	for _, r := range d.spec.Replace[d.fn] {
+		n := 0
+		mapLists(fd.Body, func(l []ast.Stmt) []ast.Stmt {
+			var out []ast.Stmt
+			for _, st := range l {
+				if es, ok := st.(*ast.ExprStmt); ok && strings.HasPrefix(nodeString(es.X), r[0]) && strings.HasSuffix(r[0], "(") {
+					out = append(out, d.parseStmts(r[1])...)
+					n++
+					continue
+				}
+				out = append(out, st)
+			}
+			return out
+		})
+		rwStmt(fd.Body, func(e ast.Expr) ast.Expr {
+			if _, isCall := e.(*ast.CallExpr); isCall || !strings.HasSuffix(r[0], "(") {
+				if nodeString(e) == r[0] {
+					n++
+					return d.parseExpr(r[1])
+				}
+			}
+			return e
+		})
+		if n != 1 {
+			d.fail("replacement of %q applies %d times (expected once)", r[0], n)
+		}
+	}
+	d.r4(fd)
+	if d.recv == "" {
+		return
+	}
+	d.r1(fd)
+	d.r2direct(fd)
+	d.r2var(fd)
+	d.r3(fd)
+}
+
+func (d *desugarer) r4(fd *ast.FuncDecl) {
+	sp := d.spec
+	if d.recv != "" {
+		buf, capf := d.recv+"."+sp.CapOf, d.recv+"."+sp.CapField
+		rwStmt(fd.Body, func(e ast.Expr) ast.Expr {
+			if c, ok := e.(*ast.CallExpr); ok && isIdent(c.Fun, "cap") {
+				if nodeString(c) != "cap("+buf+")" {
+					d.fail("cap() of something else than %s", buf)
+				}
+				return d.parseExpr(capf)
+			}
+			return e
+		})
+		mapLists(fd.Body, func(l []ast.Stmt) []ast.Stmt {
+			var out []ast.Stmt
+			for _, st := range l {
+				as, ok := st.(*ast.AssignStmt)
+				touches := false
+				if ok {
+					for _, lh := range as.Lhs {
+						if se, ok := lh.(*ast.SelectorExpr); ok && se.Sel.Name == sp.CapOf {
+							touches = true
+						}
+					}
+				}
+				if !touches {
+					out = append(out, st)
+					continue
+				}
+				if len(as.Lhs) != 1 || len(as.Rhs) != 1 || as.Tok != token.ASSIGN || nodeString(as.Lhs[0]) != buf {
+					d.fail("unsupported assignment to the field %s", sp.CapOf)
+				}
+				switch r := as.Rhs[0].(type) {
+				case *ast.CallExpr:
+					if isIdent(r.Fun, "append") && len(r.Args) == 2 && !r.Ellipsis.IsValid() && nodeString(r.Args[0]) == buf {
+						out = append(out, d.parseStmts(fmt.Sprintf("if len(%[1]s) == %[2]s {\n%[2]s = %[3]s(%[2]s, len(%[1]s)+1)\n}", buf, capf, sp.GrowOracle))...)
+						out = append(out, st)
+						continue
+					}
+				case *ast.SliceExpr:
+					if nodeString(r.X) == buf && r.Low == nil && r.High != nil && !r.Slice3 {
+						out = append(out, st) // re-slicing keeps the capacity
+						continue
+					}
+				}
+				d.fail("unsupported assignment to %s: %s", buf, nodeString(as))
+			}
+			return out
+		})
+	}
+	// composite literals of the store
+	ast.Inspect(fd.Body, func(n ast.Node) bool {
+		cl, ok := n.(*ast.CompositeLit)
+		if !ok || !isIdent(cl.Type, sp.Recv) {
+			return true
+		}
+		for _, el := range cl.Elts {
+			kv, ok := el.(*ast.KeyValueExpr)
+			if !ok {
+				d.fail("positional composite literal of %s", sp.Recv)
+			}
+			if !isIdent(kv.Key, sp.CapOf) {
+				continue
+			}
+			capExpr := ""
+			mk := func(e ast.Expr) string {
+				c, ok := e.(*ast.CallExpr)
+				if !ok || !isIdent(c.Fun, "make") {
+					return ""
+				}
+				switch len(c.Args) {
+				case 2:
+					return nodeString(c.Args[1])
+				case 3:
+					return nodeString(c.Args[2])
+				}
+				return ""
+			}
+			if capExpr = mk(kv.Value); capExpr == "" {
+				id, ok := kv.Value.(*ast.Ident)
+				if !ok {
+					d.fail("cannot tell the capacity of %s in a literal", nodeString(kv.Value))
+				}
+				made := false
+				ast.Inspect(fd.Body, func(m ast.Node) bool {
+					as, ok := m.(*ast.AssignStmt)
+					if !ok {
+						return true
+					}
+					for i, l := range as.Lhs {
+						if bi := baseIdent(l); bi != nil && bi.Name == id.Name {
+							c, isMake := ast.Expr(nil), false
+							if as.Tok == token.DEFINE && len(as.Lhs) == len(as.Rhs) && isIdent(l, id.Name) {
+								c = as.Rhs[i]
+								if call, ok := c.(*ast.CallExpr); ok && isIdent(call.Fun, "make") && len(call.Args) == 2 {
+									isMake = true
+								}
+							}
+							if !isMake || made {
+								d.fail("cannot tell the capacity of %s in a literal (assigned otherwise than by one make([]T, n))", id.Name)
+							}
+							made = true
+						}
+					}
+					return true
+				})
+				if !made {
+					d.fail("cannot tell the capacity of %s in a literal", id.Name)
+				}
+				capExpr = "len(" + id.Name + ")"
+			}
+			cl.Elts = append(cl.Elts, &ast.KeyValueExpr{Key: ast.NewIdent(sp.CapField), Value: d.parseExpr(capExpr)})
+			break
+		}
+		return true
+	})
+}
+
+func (d *desugarer) r1(fd *ast.FuncDecl) {
+	var fix func(l []ast.Stmt) []ast.Stmt
+	fix = func(l []ast.Stmt) []ast.Stmt {
+		for i, st := range l {
+			as, ok := st.(*ast.AssignStmt)
+			if !ok || as.Tok != token.DEFINE || len(as.Lhs) != 1 || len(as.Rhs) != 1 {
+				continue
+			}
+			u, ok := as.Rhs[0].(*ast.UnaryExpr)
+			if !ok || u.Op != token.AND {
+				continue
+			}
+			target, ok := u.X.(*ast.IndexExpr)
+			p, isId := as.Lhs[0].(*ast.Ident)
+			if !ok || !isId {
+				d.fail("address of %s taken", nodeString(u.X))
+			}
+			rest := &ast.BlockStmt{List: append([]ast.Stmt{}, l[i+1:]...)}
+			atoms := map[string]bool{nodeString(target.X): true}
+			ast.Inspect(target.Index, func(m ast.Node) bool {
+				switch e := m.(type) {
+				case *ast.SelectorExpr:
+					atoms[nodeString(e)] = true
+					return false
+				case *ast.Ident:
+					atoms[e.Name] = true
+				}
+				return true
+			})
+			nId, nStar := 0, 0
+			ast.Inspect(rest, func(m ast.Node) bool {
+				switch e := m.(type) {
+				case *ast.Ident:
+					if e.Name == p.Name {
+						nId++
+					}
+				case *ast.StarExpr:
+					if isIdent(e.X, p.Name) {
+						nStar++
+					}
+				case *ast.CallExpr:
+					id, ok := e.Fun.(*ast.Ident)
+					if !ok || !(id.Name == "len" || id.Name == "append" || id.Name == "make" || id.Name == "cap" || id.Name == "copy") {
+						d.fail("R1: call of %s while %s points into %s", nodeString(e.Fun), p.Name, nodeString(target.X))
+					}
+				case *ast.AssignStmt:
+					for _, lh := range e.Lhs {
+						s := nodeString(lh)
+						if atoms[s] || strings.HasPrefix(s, nodeString(target.X)+"[") {
+							d.fail("R1: %s is assigned while %s points into %s", s, p.Name, nodeString(target.X))
+						}
+					}
+				case *ast.IncDecStmt:
+					if atoms[nodeString(e.X)] {
+						d.fail("R1: %s is assigned while %s points into it", nodeString(e.X), p.Name)
+					}
+				case *ast.ForStmt, *ast.RangeStmt:
+					d.fail("R1: loop while %s points into %s", p.Name, nodeString(target.X))
+				}
+				return true
+			})
+			if nId != nStar {
+				d.fail("R1: the pointer %s is used otherwise than as *%s", p.Name, p.Name)
+			}
+			tgt := nodeString(target)
+			as.Rhs[0] = target
+			mapLists(rest, func(ll []ast.Stmt) []ast.Stmt {
+				var out []ast.Stmt
+				for _, s := range ll {
+					out = append(out, s)
+					if a2, ok := s.(*ast.AssignStmt); ok && len(a2.Lhs) == 1 {
+						if se, ok := a2.Lhs[0].(*ast.StarExpr); ok && isIdent(se.X, p.Name) {
+							if a2.Tok != token.ASSIGN {
+								d.fail("R1: unsupported assignment through *%s", p.Name)
+							}
+							out = append(out, d.parseStmts(tgt+" = "+p.Name)...)
+						}
+					}
+				}
+				return out
+			})
+			rwStmt(rest, func(e ast.Expr) ast.Expr {
+				if se, ok := e.(*ast.StarExpr); ok && isIdent(se.X, p.Name) {
+					return ast.NewIdent(p.Name)
+				}
+				return e
+			})
+			return append(append([]ast.Stmt{}, l[:i+1]...), fix(rest.List)...)
+		}
+		return l
+	}
+	mapLists(fd.Body, fix)
+}
+
+func (d *desugarer) pageCall(e ast.Expr) *ast.CallExpr {
+	c, ok := e.(*ast.CallExpr)
+	if !ok {
+		return nil
+	}
+	sel, ok := c.Fun.(*ast.SelectorExpr)
+	if !ok || !isIdent(sel.X, d.recv) || sel.Sel.Name != d.spec.PageMethod || len(c.Args) != 2 {
+		return nil
+	}
+	return c
+}
+
+func (d *desugarer) r2direct(fd *ast.FuncDecl) {
+	n := 0
+	mapLists(fd.Body, func(l []ast.Stmt) []ast.Stmt {
+		var out []ast.Stmt
+		for _, st := range l {
+			var target *ast.IndexExpr
+			var text string
+			switch s := st.(type) {
+			case *ast.AssignStmt:
+				if len(s.Lhs) == 1 && len(s.Rhs) == 1 {
+					if ix, ok := s.Lhs[0].(*ast.IndexExpr); ok && d.pageCall(ix.X) != nil {
+						target = ix
+						text = fmt.Sprintf("pg%d[%s] %s %s", n, nodeString(ix.Index), s.Tok.String(), nodeString(s.Rhs[0]))
+					}
+				}
+			case *ast.IncDecStmt:
+				if ix, ok := s.X.(*ast.IndexExpr); ok && d.pageCall(ix.X) != nil {
+					target = ix
+					text = fmt.Sprintf("pg%d[%s]%s", n, nodeString(ix.Index), s.Tok.String())
+				}
+			}
+			if target == nil {
+				out = append(out, st)
+				continue
+			}
+			out = append(out, d.parseStmts(fmt.Sprintf("{\npg%d := %s\n%s\n}", n, nodeString(target.X), text))...)
+			n++
+		}
+		return out
+	})
+}
+
+func (d *desugarer) r2var(fd *ast.FuncDecl) {
+	sp := d.spec
+	var fix func(l []ast.Stmt) []ast.Stmt
+	fix = func(l []ast.Stmt) []ast.Stmt {
+		for i, st := range l {
+			as, ok := st.(*ast.AssignStmt)
+			if !ok || len(as.Lhs) != 1 || len(as.Rhs) != 1 {
+				continue
+			}
+			x, isId := as.Lhs[0].(*ast.Ident)
+			call := d.pageCall(as.Rhs[0])
+			var slotOf ast.Expr
+			if ix, ok := as.Rhs[0].(*ast.IndexExpr); ok && nodeString(ix.X) == d.recv+"."+sp.Table {
+				slotOf = ix.Index
+			}
+			if call == nil && slotOf == nil {
+				continue
+			}
+			if !isId || as.Tok != token.DEFINE {
+				d.fail("R2: an entry of the page table is assigned to something else than a new variable")
+			}
+			rest := append([]ast.Stmt{}, l[i+1:]...)
+			if !anyWrite(rest, x.Name) {
+				continue
+			}
+			d.checkTableStable(rest, x.Name)
+			var defs string
+			if call != nil {
+				switch call.Args[1].(type) {
+				case *ast.Ident, *ast.BasicLit:
+				default:
+					d.fail("R2: the second argument of %s must be a variable or a literal", sp.PageMethod)
+				}
+				defs = fmt.Sprintf("%[1]sPIdx := %[2]s\n%[1]s := %[3]s.%[4]s(%[1]sPIdx, %[5]s)\n%[1]sSlot := %[1]sPIdx - %[3]s.%[6]s",
+					x.Name, nodeString(call.Args[0]), d.recv, sp.PageMethod, nodeString(call.Args[1]), sp.Base)
+			} else {
+				defs = fmt.Sprintf("%[1]sSlot := %[2]s\n%[1]s := %[3]s.%[4]s[%[1]sSlot]", x.Name, nodeString(slotOf), d.recv, sp.Table)
+			}
+			rest = d.insertWriteBacks(rest, x.Name, fmt.Sprintf("%s.%s[%sSlot] = %s", d.recv, sp.Table, x.Name, x.Name))
+			out := append([]ast.Stmt{}, l[:i]...)
+			out = append(out, d.parseStmts(defs)...)
+			return append(out, fix(rest)...)
+		}
+		return l
+	}
+	mapLists(fd.Body, fix)
+}
+
+func (d *desugarer) r3(fd *ast.FuncDecl) {
+	sp := d.spec
+	ast.Inspect(fd.Body, func(n ast.Node) bool {
+		rs, ok := n.(*ast.RangeStmt)
+		if !ok || nodeString(rs.X) != d.recv+"."+sp.Table {
+			return true
+		}
+		p, ok := rs.Value.(*ast.Ident)
+		if !ok || p.Name == "_" || !anyWrite(rs.Body.List, p.Name) {
+			return true
+		}
+		d.checkTableStable(rs.Body.List, p.Name)
+		key := p.Name + "Idx"
+		if k, ok := rs.Key.(*ast.Ident); ok && k.Name != "_" {
+			key = k.Name
+		} else {
+			rs.Key = ast.NewIdent(key)
+		}
+		rs.Body.List = d.insertWriteBacks(rs.Body.List, p.Name, fmt.Sprintf("%s.%s[%s] = %s", d.recv, sp.Table, key, p.Name))
+		return true
+	})
+}
+
+func mergeExterns(ms ...map[string]externFn) map[string]externFn {
+	out := map[string]externFn{}
+	for _, m := range ms {
+		for k, v := range m {
+			out[k] = v
+		}
+	}
+	return out
+}
+
+// the buffered-paginated store, through the desugaring above.  `MergeWith` is translated for an argument that is a
+// *BufferedPaginatedStore distinct from the receiver (`o == s` is false); its fallback for stores of another page
+// length (a closure that writes to the receiver) and the `default:` case of the decoder (the generic
+// `store.DecodeAndMergeWith` on the receiver as a `Store`) are oracles.  `Bins` (goroutine) and the protobuf
+// methods are not translated.
+var paginatedUnit = transUnit{Dir: "ddsketch/store", File: "CodePaginated", NS: "DDS.Gen.Paginated", Mode: "rat",
+	Imports:     denseUnit.Imports,
+	ExternTypes: denseUnit.ExternTypes, ExternVars: denseUnit.ExternVars,
+	ExternFuncs: mergeExterns(denseUnit.ExternFuncs, storeDecodeUnit.ExternFuncs),
+	Specialise:  map[string]map[string]string{"BufferedPaginatedStore.MergeWith": {"other": "BufferedPaginatedStore"}},
+	Desugar: &desugarSpec{File: "buffered_paginated.go", Recv: "BufferedPaginatedStore",
+		Table: "pages", Base: "minPageIndex", PageMethod: "page", CapOf: "buffer", CapField: "bufferCap", GrowOracle: "growCap",
+		Oracles: []oracleSpec{
+			{Go: "growCap", Lean: "grow", Decl: "// the capacity `append` gives a full slice of capacity oldCap that must hold `needed` elements (runtime growth policy)\nfunc growCap(oldCap, needed int) int"},
+			{Go: "mergeFallback", Lean: "mergeFallback", Res: true, Mut: []int{0},
+				Decl: "// MergeWith, page lengths differ: other.ForEach(func(index int, count float64) (stop bool) { s.AddWithCount(index, count); return false })\nfunc mergeFallback(s *BufferedPaginatedStore, other *BufferedPaginatedStore)"},
+			{Go: "decodeFallback", Lean: "decodeFallback", Res: true, Mut: []int{0, 1},
+				Decl: "// DecodeAndMergeWith, default case: the generic DecodeAndMergeWith(s, b, encodingMode) of store.go on s as a Store\nfunc decodeFallback(s *BufferedPaginatedStore, b *[]byte, encodingMode enc.SubFlag) error"},
+		},
+		Replace: map[string][][2]string{
+			"BufferedPaginatedStore.MergeWith": {
+				{"o == s", "false"}, // the unit's assumption: the argument is another object than the receiver
+				{"other.ForEach(", "mergeFallback(s, o)"},
+			},
+			"BufferedPaginatedStore.DecodeAndMergeWith": {{"DecodeAndMergeWith(s, b, encodingMode)", "decodeFallback(s, b, encodingMode)"}},
+		}},
+	Vars: []string{"errUndefinedMinIndex", "errUndefinedMaxIndex"},
+	Funcs: []string{
+		"min", "max", "Bin.Index", "Bin.Count",
+		"NewBufferedPaginatedStore", "BufferedPaginatedStore.pageIndex", "BufferedPaginatedStore.lineIndex",
+		"BufferedPaginatedStore.index", "BufferedPaginatedStore.newPagesLen", "BufferedPaginatedStore.page",
+		"BufferedPaginatedStore.sortBuffer", "BufferedPaginatedStore.compact", "BufferedPaginatedStore.Add",
+		"BufferedPaginatedStore.AddWithCount", "BufferedPaginatedStore.AddBin", "BufferedPaginatedStore.IsEmpty",
+		"BufferedPaginatedStore.TotalCount", "BufferedPaginatedStore.MinIndex", "BufferedPaginatedStore.MaxIndex",
+		"BufferedPaginatedStore.Copy", "BufferedPaginatedStore.Clear", "BufferedPaginatedStore.Reweight",
+	}}
+
+func init() {
+	transUnits = append(transUnits, paginatedUnit)
 }
